@@ -17,6 +17,10 @@ theorem unregister_purges : unregister_purges_queues = true := by
 theorem unregister_all_purges : unregister_all_purges_queues = true := by
   simp [unregister_all_purges_queues]
 
+/-- the registry removes by name, never by object identity: `async_remove` and `_remove` contain no `is` test between objects -/
+theorem remove_by_key : registry_remove_by_identity = false ∧ registry_remove_inner_by_identity = false := by
+  simp [registry_remove_by_identity, registry_remove_inner_by_identity]
+
 /-- `async_send` sends nothing once `done` -/
 theorem send_is_noop_eq (d : Bool) : send_is_noop d = d := by simp [send_is_noop]
 
